@@ -423,7 +423,7 @@ func checkMain(id, tier string) int {
 			seed = v
 		}
 	}
-	work := filepath.Join(verifDir, ".work", id+"-"+tier)
+	work := filepath.Join(verifDir, ".work", id+"-"+tier+os.Getenv("GOSYM_WORKDIR_SUFFIX"))
 	os.RemoveAll(work)
 	os.MkdirAll(work, 0o755)
 	ov, err := buildOverlay(cfg, work)
@@ -690,7 +690,11 @@ func checkMain(id, tier string) int {
 	}
 
 	// ---- verdict ----
-	os.MkdirAll(filepath.Join(verifDir, "replays"), 0o755)
+	replayDir := filepath.Join(verifDir, "replays")
+	if os.Getenv("GOSYM_REPO") != "" {
+		replayDir = filepath.Join(verifDir, ".work", "scratch-replays")
+	}
+	os.MkdirAll(replayDir, 0o755)
 	var violationLines, knownLines []string
 	seenKnown := map[string]bool{}
 	nViol := 0
@@ -712,7 +716,7 @@ func checkMain(id, tier string) int {
 		}
 		seenV[key] = true
 		vfile++
-		path := filepath.Join(verifDir, "replays", fmt.Sprintf("%s-%s-%d.json", id, tier, vfile))
+		path := filepath.Join(replayDir, fmt.Sprintf("%s-%s-%d.json", id, tier, vfile))
 		rb, _ := json.MarshalIndent(map[string]interface{}{
 			"property": cfg.Property, "entry": c.V.Entry, "package": entryPkg[c.V.Entry], "params": c.Params,
 			"kind": c.V.Kind, "message": c.V.Msg, "script": c.V.Script, "predicted_trace": c.V.Trace, "native_trace": c.Native,
